@@ -9,9 +9,9 @@ R2 = X in ("C", "D")  # second seeding round uses its own worktrees and output d
 R4 = X in ("E", "F")  # fourth round (after the defect-hunting round)
 R6 = X in ("G", "H")  # sixth round: the agents name their two changes E and F again; stored as G and H
 R9 = X in ("K", "L")  # ninth round: E and F again; stored as K and L
-R10 = X in ("M", "N")  # tenth round: E and F again; stored as M and N
+R10 = X in ("M", "N", "O")  # tenth round: E and F again; stored as M and N
 R8 = X in ("I", "J")  # eighth round (after the round-7 hunt): E and F again; stored as I and J
-SRC = {"G": "E", "H": "F", "I": "E", "J": "F", "K": "E", "L": "F", "M": "E", "N": "F"}.get(X, X)
+SRC = {"G": "E", "H": "F", "I": "E", "J": "F", "K": "E", "L": "F", "M": "E", "N": "F", "O": "G"}.get(X, X)
 wt = f"/tmp/wt15/{ID}" if R10 else f"/tmp/wt11/{ID}" if R9 else f"/tmp/wt9/{ID}" if R8 else f"/tmp/wt6/{ID}" if R6 else f"/tmp/wt4/{ID}" if R4 else f"/tmp/wt2/{ID}" if R2 else f"/tmp/wt/{ID}"; sd = f"/tmp/seed10_{ID}" if R10 else f"/tmp/seed9_{ID}" if R9 else f"/tmp/seed8_{ID}" if R8 else f"/tmp/seed6_{ID}" if R6 else f"/tmp/seed4_{ID}" if R4 else f"/tmp/seed2_{ID}" if R2 else f"/tmp/seed_{ID}"; patch = f"{sd}/{SRC}.patch"; demo = f"{sd}/demo{SRC}"
 env = dict(os.environ, GOFLAGS="-mod=mod", GOPROXY="off", GOSUMDB="off", GOTOOLCHAIN="local")
 env.pop("GOWORK", None)
